@@ -4,11 +4,9 @@ CONSTANTS
   MaxC = 9
   MutN = 3
   MutC = 2
-  ShortLen = 6
+  ShortLen = 4
   MaxEntries = 2
   Registered = {"gzip", "x-lz4", "lz4"}
-  StreamDomain = "short"
-INVARIANT Refines
-INVARIANT ReadBound
-INVARIANT TypeOK
-PROPERTY Terminates
+  Part = "big"
+  BigCases <- BigQuick
+INVARIANT Laws
